@@ -111,6 +111,9 @@ func ruleLINECOL(c *Ctx) {
 							switch {
 							case p == "0":
 								c.Ok(rule, key, x.Pos(), "start of input")
+							case (strings.HasPrefix(p, "(1 + strings.LastIndexByte(l.source[:") || strings.HasPrefix(p, "(strings.LastIndexByte(l.source[:") && strings.HasSuffix(p, " + 1)")) &&
+								strings.Contains(p, "l.source[:l.offset]") && storesOffsetLater(f, x):
+								c.Bad(rule, key, x.Pos(), "lineOffset is computed from source[:l.offset], the position the lexer is about to leave (l.offset is assigned afterwards): after moving across a newline the line start is stale and columns are wrong")
 							case strings.HasPrefix(p, "(1 + strings.LastIndexByte(l.source[:") || strings.HasPrefix(p, "(strings.LastIndexByte(l.source[:") && strings.HasSuffix(p, " + 1)"):
 								c.Ok(rule, key, x.Pos(), "first byte after the last newline before the new offset")
 							case nl && (loadsField(x.Val, "scanOffset") || p == "(l.offset + 1)" || p == "(1 + l.offset)"):
@@ -526,4 +529,37 @@ func ruleHASHAGREE(c *Ctx) {
 	} else {
 		c.addT(rule, "gen.stringHash:unit[mode=bytes]", pos, Violation, "with scanBytes the generated lexer hashes one byte per step, but the switch constants in effect under .Options.ScanBytes are computed over %v: a non-ASCII keyword is never recognised in bytes mode", keysOf(bytesMode))
 	}
+}
+
+// storesOffsetLater: is a store to the receiver's offset field reachable after st?
+func storesOffsetLater(f *ssa.Function, st *ssa.Store) bool {
+	isOff := func(ins ssa.Instruction) bool {
+		s, ok := ins.(*ssa.Store)
+		if !ok {
+			return false
+		}
+		fa, ok := s.Addr.(*ssa.FieldAddr)
+		return ok && fieldName(fa.X.Type(), fa.Field) == "offset"
+	}
+	after := false
+	for _, ins := range st.Block().Instrs {
+		if ins == ssa.Instruction(st) {
+			after = true
+			continue
+		}
+		if after && isOff(ins) {
+			return true
+		}
+	}
+	for _, b := range f.Blocks {
+		if b == st.Block() || !reachesWithout(st.Block(), b, nil) {
+			continue
+		}
+		for _, ins := range b.Instrs {
+			if isOff(ins) {
+				return true
+			}
+		}
+	}
+	return false
 }
